@@ -14,8 +14,8 @@ import itertools
 
 from vk import core, scp
 
-FIND_ALPHA = ["P_ok", "pend_none", "pend_bad", "pend_warn", "pend_empty", "success", "warning_b001", "failure", "failure_c", "cancel", "unknown", "gen_warning", "status_ds_pending", "status_ds_fail", "status_ds_nostatus", "status_str", "arity1", "arity3", "scalar"]
-GM_ALPHA = ["P_ok", "P_warn", "P_fail", "P_exc", "P_unknown", "P_nostatus", "pend_none", "pend_bad", "pend_warn", "success", "warning_b000", "failure", "cancel", "unknown", "status_ds_pending", "status_ds_fail", "status_ds_nostatus", "arity1", "scalar"]
+FIND_ALPHA = ["P_ok", "pend_none", "pend_bad", "pend_warn", "pend_empty", "success", "warning_b001", "failure", "failure_c", "cancel", "unknown", "gen_warning", "status_ds_pending", "status_ds_fail", "status_ds_nostatus", "status_str", "arity1", "arity3", "scalar", "oor_big", "oor_neg"]
+GM_ALPHA = ["oor_big","P_ok", "P_warn", "P_fail", "P_exc", "P_unknown", "P_nostatus", "pend_none", "pend_bad", "pend_warn", "success", "warning_b000", "failure", "cancel", "unknown", "status_ds_pending", "status_ds_fail", "status_ds_nostatus", "arity1", "scalar"]
 
 
 def gen_cases(quick):
